@@ -18,6 +18,7 @@ import YashModel.Common.Proto
 import YashModel.Variable.Model
 import YashModel.Variable.Spec
 import YashModel.Variable.Script
+import YashModel.Variable.Observe
 open YashModel YashModel.Variable YashModel.Proto
 
 def parseScope : String → Option Scope
@@ -63,51 +64,6 @@ def namesOf (ops : List Op) : List Name :=
   let hs := (ops.filterMap opName).foldl (fun acc n => insertSorted (encStr n) acc) []
   hs.filterMap decStr
 
-def showOptNat : Option Nat → String
-  | some n => toString n
-  | none => "-"
-
-def showValue : Option Value → String
-  | none => "~"
-  | some (.scalar s) => "s:" ++ encStr s
-  | some (.array vs) => "a:" ++ ",".intercalate (vs.map encStr)
-
-def showVar (v : Variable) : String :=
-  s!"{showValue v.value}/{if v.exported then 1 else 0}/{showOptNat v.readOnly}/{showOptNat v.lastAssigned}"
-
-def showOptVar : Option Variable → String
-  | some v => showVar v
-  | none => "-"
-
-def showRes : Res → String
-  | .done => "done"
-  | .noVolatile => "novol"
-  | .assigned v l => s!"as({showValue v},{showOptNat l})"
-  | .readOnly l => s!"ro({l})"
-  | .unset v => s!"un({showOptVar v})"
-
-/-- everything observed after an operation, from the lookups a state offers -/
-def showScalar : Option String → String
-  | none => "~"
-  | some x => encStr x
-
-def observeWith (r : Res) (names : List Name) (gs : Name → Option String)
-    (get : Name → Option Variable) (scopedF : Name → Scope → Option Variable)
-    (iter : Scope → List (Name × Variable)) (env : List (Name × String)) (pp : List String) : String :=
-  let vs := names.map fun n =>
-    s!"{encStr n}={showOptVar (get n)}|{showOptVar (scopedF n .global)}|{showOptVar (scopedF n .loc)}|{showOptVar (scopedF n .volatile)}|{showScalar (gs n)}"
-  let it (sc : Scope) := ",".intercalate ((iter sc).map fun (n, v) => s!"{encStr n}={showVar v}")
-  let ev := ",".intercalate (env.map fun (n, x) => s!"{encStr n}={encStr x}")
-  " ".intercalate ([s!"r={showRes r}"] ++ vs ++
-    [s!"ig={it .global}", s!"il={it .loc}", s!"iv={it .volatile}", s!"env={ev}",
-     s!"pp={",".intercalate (pp.map encStr)}"])
-
-def observeM (s : VariableSet) (r : Res) (names : List Name) : String :=
-  observeWith r names s.getScalar s.get s.getScoped (fun sc => s.iter sc names) (s.env names) s.positionalParams
-
-def observeS (X : SSet) (r : Res) (names : List Name) : String :=
-  observeWith r names X.getScalar (lookup X) X.getScoped (fun sc => X.iter sc names) (X.env names) X.positionalParams
-
 /-- an operation of the case language: an `Op`, or `ee N V` (`extend_env` of one pair) -/
 def parseItem (t : String) : Option (Op ⊕ (Name × String)) :=
   match words t with
@@ -125,19 +81,7 @@ def runHistory (line : String) : String :=
   | some items =>
     let hs := (items.filterMap itemName).foldl (fun acc n => insertSorted (encStr n) acc) []
     let names := hs.filterMap decStr
-    let rec go (s : VariableSet) (X : SSet) (items : List (Op ⊕ (Name × String))) (om os : List String) :
-        List String × List String :=
-      match items with
-      | [] => (om.reverse, os.reverse)
-      | .inl op :: rest =>
-        let (s', r) := s.step op
-        let (X', q) := X.step op
-        go s' X' rest (observeM s' r names :: om) (observeS X' q names :: os)
-      | .inr (n, v) :: rest =>
-        let s' := s.extendEnv1 n v
-        let X' := X.extendEnv1 n v
-        go s' X' rest (observeM s' .done names :: om) (observeS X' .done names :: os)
-    let (om, os) := go VariableSet.new SSet.new items [] []
+    let (om, os) := historyGo names VariableSet.new SSet.new items [] []
     " | ".intercalate om ++ "\t=" ++ " | ".intercalate os
 
 /-! ### script cases: `sh f: S , S ; g: S ; main: S , S` (see `Script.lean`) -/
